@@ -360,7 +360,7 @@ func (b *wfBuilder) chooseType(i int) {
 	case nd.kind == "struct" || nd.needStruct:
 		pool = shapesStruct
 	case nd.kind == "bind" || nd.kind == "ivalue":
-		pool = []string{"iface", "iface", "ifacelit", "ifaceembed"}
+		pool = []string{"iface", "iface", "ifacelit", "ifaceembed", "ifaceonlyembed"}
 	case len(nd.binders) > 0 && nd.kind == "value":
 		pool = []string{"S", "*S", "defint", "defslice"}
 	case len(nd.binders) > 0:
@@ -456,10 +456,19 @@ func (b *wfBuilder) chooseType(i int) {
 		def(Ptr(Basic("int")))
 	case "defarr":
 		def(Array(2, Basic("int")))
-	case "iface", "ifaceembed":
+	case "iface", "ifaceembed", "ifaceonlyembed":
 		m := fmt.Sprintf("M%d", i)
 		d := Decl{Name: T, Form: "iface", IMeth: []string{m}}
 		impl := Decl{Name: fmt.Sprintf("Impl%d", i), Form: "struct", Fields: []SField{{Name: "Tok", T: Basic("int")}}, Methods: []Method{{Name: m}}}
+		if shape == "ifaceonlyembed" {
+			// no method of its own: everything comes from two embedded interfaces
+			em, gm := fmt.Sprintf("E%d", i), fmt.Sprintf("G%dm", i)
+			e := b.addDecl(Decl{Name: fmt.Sprintf("J%d", i), Form: "iface", IMeth: []string{em}})
+			g := b.addDecl(Decl{Name: fmt.Sprintf("K%d", i), Form: "iface", IMeth: []string{gm}})
+			d.IMeth = nil
+			d.Embeds = []int{e, g}
+			impl.Methods = []Method{{Name: em}, {Name: gm}}
+		}
 		if shape == "ifaceembed" {
 			em := fmt.Sprintf("E%d", i)
 			e := b.addDecl(Decl{Name: fmt.Sprintf("J%d", i), Form: "iface", IMeth: []string{em}})
@@ -547,7 +556,7 @@ func (b *wfBuilder) placeDecls(i int) {
 	for di := range b.s.Decls {
 		d := &b.s.Decls[di]
 		switch d.Name {
-		case T, fmt.Sprintf("Impl%d", i), fmt.Sprintf("J%d", i), fmt.Sprintf("A%d", i), fmt.Sprintf("Q%d", i):
+		case T, fmt.Sprintf("Impl%d", i), fmt.Sprintf("J%d", i), fmt.Sprintf("K%d", i), fmt.Sprintf("A%d", i), fmt.Sprintf("Q%d", i):
 			d.Pkg = nd.pkg
 		}
 	}
